@@ -30,6 +30,12 @@ LATTICE_CONFIGS = {
     "wf3": dict(B=3, moves=["sh", "wf", "wf"], n_jumps=2, maxlength=14),
     "mix4cap": dict(B=4, moves=["sh", "sh", "wf", "sh"], cap=2.5, n_jumps=1, maxlength=16),
     "sh3del": dict(B=3, moves=["sh", "sh", "sh"], maxlength=14, delete_old=True),
+    # an ensemble that lists two engines with different dynamics: which one runs the move must not depend on
+    # anything but the configuration (e.g. not on the iteration order of a set)
+    "multi3": dict(B=3, moves=["sh", "sh", "sh"], maxlength=14,
+                   ensemble_engines=[["engine"], ["engine", "engine1"], ["engine1", "engine"]],
+                   extra_engines={"engine1": {"class": "LatticeEngine", "module": scenario.PLUGIN, "B": 3, "p0": 0.5, "pin": 0.8,
+                                              "timestep": 1.0, "subcycles": 1, "energies": False}}),
 }
 
 
@@ -166,7 +172,7 @@ def _hashseed_job(args):
     base = scratch.mkdtemp("c06h")
     try:
         states = []
-        for hs in ("0", "1", "4242"):
+        for hs in ("0", "1", "4242", "5", "6"):
             d = os.path.join(base, f"hs{hs}")
             os.makedirs(d)
             build_case(d, cfgname, seed, N)
@@ -179,7 +185,7 @@ def _hashseed_job(args):
             df = l2.diff_states(states[0], s)
             if df:
                 bad.append(("hashseed-dependent", f"runs in separate processes with different PYTHONHASHSEED differ in {df[:4]}", {}))
-        return (cfgname, seed, N), 3, bad
+        return (cfgname, seed, N), 5, bad
     finally:
         scratch.rmtree(base)
 
@@ -266,7 +272,7 @@ def run(ctx):
     cfgs = ["sh3", "wf3", "mix4cap"] + ([] if ctx.quick else ["sh3del"])
     jobs = [(c, s, N) for c in cfgs for s in seeds]
     jobs += [("turtle", s, 8 if ctx.quick else 12) for s in (seeds[:3] if ctx.quick else seeds)]
-    hjobs = [("wf3", 1, N), ("turtle", 0, 3)]
+    hjobs = [("wf3", 1, N), ("turtle", 0, 3), ("multi3", 1, N)]
     mjobs = [("sh3", s, 2, 5 if ctx.quick else 6) for s in seeds[:2]] + [("mix4cap", 1, 3, 5 if ctx.quick else 6), ("wf3", 7, 2, 5)]
     with mp.get_context("fork").Pool(min(16, os.cpu_count() or 1)) as pool:
         r1 = pool.map_async(_job, jobs, chunksize=1)
